@@ -80,6 +80,13 @@ pub fn programs(tier: Tier) -> ProgramSet {
                     true
                 }));
             }
+            for i in 0..n {
+                devs.push(dev(format!("v{}: doc comment + #[allow(dead_code)]", i), &[&format!("nonstrum{}", i)], move |s| {
+                    s.variants[i].docs.push((" documented".into(), DocForm::Comment));
+                    s.variants[i].extra_attrs.push("#[allow(dead_code)]".into());
+                    true
+                }));
+            }
             devs.push(dev("generic<T: Default>", &["gen", "kind0"], |s| {
                 if s.variants.is_empty() || s.variants.iter().any(|v| v.disc.is_some()) {
                     return false;
